@@ -407,7 +407,7 @@ def eval_ops(run, m, r, model_out):
 
 # ------------------------------------------------------------------------------------------------ (l) module identity
 MI_SHAPES = ["oid-selects", "oid-selects-3", "no-oid-shared", "no-oid-unique", "stale-oid", "oid-wrong-name", "two-clauses", "dotted-with-clause",
-             "dotted-no-clause", "dotted-two-clauses", "oidless-edition", "valref-aid", "same-oid-twice", "unique-with-oids"]
+             "dotted-no-clause", "dotted-two-clauses", "oidless-edition", "valref-aid", "same-oid-twice", "unique-with-oids", "stale-oid-unique"]
 
 
 def oid_txt(arcs, named):
@@ -464,6 +464,11 @@ def modid_set(rng, idx, shape=None):
             mods = [m for m in mods if m[2] == j]
         imps = [(cname, None)]
     elif shape == "stale-oid":
+        imps = [(cname, base + [55])]
+    elif shape == "stale-oid-unique":
+        # one module of that name, asked for with an OID it does not carry: not found, the name does not help
+        files = [f for f in files if f[0] in ("ed%d.asn1" % j, "lim%d.asn1" % j)]
+        mods = [m for m in mods if m[2] == j]
         imps = [(cname, base + [55])]
     elif shape == "oid-wrong-name":
         imps = [("Other%d" % idx, oids[j])]
@@ -605,19 +610,6 @@ def modid_model_line(ms, perm, variant="C"):
     return "c12_lookup " + " ".join(w)
 
 
-def same_named_no_oid_import(ms):
-    """classifier of C12-import-edition-by-order: two modules of the set share the queried name, all of them carry OIDs (the set is
-    accepted), and the reference reaches asn1f_lookup_module without an OID (no clause OID to lend either)"""
-    qn, qo = ms["query"]
-    same = [m for m in ms["mods"] if m[0] == qn]
-    if len(same) < 2 or any(m[1] is None for m in same):
-        return False
-    if qo is not None:
-        return False
-    lend = [o for (n, o) in ms["imps"] if n == qn and o is not None]
-    return not lend
-
-
 def eval_modid(run, ms, r, model_out):
     rep = {"shape": ms["shape"], "files": dict(ms["files"])}
     run.case("modid:%d:%s" % (ms["idx"], ms["shape"]))
@@ -661,21 +653,8 @@ def eval_modid(run, ms, r, model_out):
             ks = sorted(k for k in set(p["tree"]) | set(ref["tree"]) if p["tree"].get(k) != ref["tree"].get(k))
             why = ("per-type files", {"files": ks[:8]})
         if why:
-            if same_named_no_oid_import(ms) and ref["rcE"] == 0 and p["rcE"] == 0 and why[0] != "exit status" and why[0] != "diagnostics":
-                # narrow: every order's result is the first same-named edition of that order (nothing else varies)
-                fn = [f for f, _ in ms["files"]]
-                ok = True
-                for q in P:
-                    first = next(int(fn[i][2:-5]) for i in q["perm"] if fn[i].startswith("ed"))
-                    ok = ok and q["lim"] == ms["values"][first]
-                if ok:
-                    run.known_finding("C12-import-edition-by-order", "set %d (%s)" % (ms["idx"], ms["shape"]))
-                    return
             run.violation("oracle:file-order", dict(rep, what="module identity: %s depends on the order of the module files" % why[0],
                           order_a=ref["files"], order_b=p["files"], detail=why[1], stderr_a=ref["seE"], stderr_b=p["seE"]))
             return
-    if same_named_no_oid_import(ms) and ref["rcE"] == 0:
-        run.violation("oracle:finding-not-reproduced", dict(rep, what="C12-import-edition-by-order: every order gives the same result now"), no_input=True)
-        return
     run.count("modid_order_independent")
     run.count("modid_outcome:" + ("ok" if ref["rcE"] == 0 else "refused"))
